@@ -468,12 +468,19 @@ def run(tier):
                       "process-wide configuration (nodeGlobal reset by the driver)",
                       "values are observed as text ('s' conversion); names and values contain no NUL byte (C strings)",
                       "the exhaustive model is bounded (see MC cfg); beyond it coverage is by the seeded histories"]
+    # extension X10: values arriving through files, environment, arguments, messages (checks/x10_load.py, docs/X10_load.md)
+    import x10_load
+    if x10_load.enabled():
+        x10_load.run_part(ck, tier)
     return ck.finish()
 
 
 def replay(path):
     d = json.load(open(path))
     det = d["detail"]
+    if det.get("part") == "x10":
+        import x10_load
+        return x10_load.replay(det, path)
     beh = det.get("behaviour")
     if not beh:
         print(json.dumps(det, indent=1)[:4000])
